@@ -3,6 +3,7 @@ package main
 // Logout messages (C10) and the unverified pre-decoders (C20) at XML level.
 
 import (
+	"encoding/base64"
 	"fmt"
 	"sort"
 	"strings"
@@ -191,8 +192,14 @@ func runLogoutStream(c *Ctx, n int) {
 					}
 					labels = append(labels, "retag-root="+rt.Tag)
 				case 5:
-					rt.CreateAttr("ID", "_edited")
-					labels = append(labels, "edit-id")
+					// the root no longer carries the ID its signature references (no extra PRNG draw: the variant follows k)
+					if k%2 == 1 {
+						editRootID(rt, "prefixed-id-namesake-first")
+						labels = append(labels, "prefixed-id-namesake-first")
+					} else {
+						rt.CreateAttr("ID", "_edited")
+						labels = append(labels, "edit-id")
+					}
 				default:
 					if n := findFirst(rt, "Issuer"); n != nil {
 						n.SetText("https://evil-idp.example.com/metadata")
@@ -356,6 +363,9 @@ func runLogoutStream(c *Ctx, n int) {
 		} else if genuine && len(faults) == 0 && (rs.SignedBy == nil || sigOK || sp.SkipSignatureValidation) {
 			c.Violate("spec", "logout:genuine-rejected", "a genuine, correctly addressed logout message was rejected: "+err.Error(), replay)
 		}
+		if accepted && !sp.SkipSignatureValidation && !flag && hasEnvelopedSignature(raw) {
+			c.Violate("spec", "logout:enveloped-signature-downgraded", "the presented "+rs.Kind+" root envelops a ds:Signature (direct child) but the message was accepted as UNSIGNED (SignatureValidated=false): its own present signature, which does not verify for this root (edited / shadowed ID), was handled as missing", replay)
+		}
 		if sigDeep && !sp.SkipSignatureValidation && accepted {
 			c.Violate("spec", "logout:bad-signature-accepted:deep", "logout message whose own signature sits below samlp:Extensions (so it cannot verify) was accepted: a present-but-bad signature downgraded to unsigned", replay)
 		}
@@ -405,6 +415,12 @@ func runPredecodeStream(c *Ctx, n int) {
 	csL := c.NewSet("prel", "Base Time Xml Ns Types Profile Decode Response",
 		"node", "fun root => res_val logout_response_val (other (unmarshal_logout_response root))")
 	cs.PerShard, csL.PerShard = 60, 60
+	// the same observables from the BYTES: the pre-decoder as token_view (XmlTok.v) + schema interpreter, no tree from the harness
+	csB := c.NewSet("prebytes", "Base Time Xml Ns Types Profile Decode Response XmlTok P_XmlTokC20",
+		"string", "fun raw => res_val base_response_val (other (predecode_bytes raw))")
+	csBL := c.NewSet("prebytesl", "Base Time Xml Ns Types Profile Decode Response XmlTok P_XmlTokC20",
+		"string", "fun raw => res_val logout_response_val (other (predecode_logout_bytes raw))")
+	csB.PerShard, csBL.PerShard = 6, 6
 	oversize := 0
 	for k := 0; k < n; k++ {
 		r := c.R
@@ -530,6 +546,7 @@ func runPredecodeStream(c *Ctx, n int) {
 			}
 		}
 		raw = []byte(s)
+		noteDoc("c20-predecode:"+fmt.Sprintf("shape%d", shape), raw)
 		wire := raw
 		if r.Intn(3) == 0 && shape != 13 {
 			wire = deflateBytes(raw, -1)
@@ -545,6 +562,26 @@ func runPredecodeStream(c *Ctx, n int) {
 			}
 		}
 		enc := b64(wire)
+		// the form value in spellings a lenient transport decoder would take and Go's strict one refuses (padding dropped,
+		// blanks / tabs between groups) and in one both take (CRLF line wrapping): whatever full validation accepts, the
+		// pre-decode must accept too
+		switch r.Intn(12) {
+		case 0:
+			if t := strings.TrimRight(enc, "="); t != enc {
+				enc = t
+				labels = append(labels, "wire-base64-padding-dropped")
+			}
+		case 1:
+			if len(enc) > 200 && shape != 13 {
+				enc = enc[:76] + " " + enc[76:152] + "\t" + enc[152:]
+				labels = append(labels, "wire-base64-blank-separated")
+			}
+		case 2:
+			if shape != 13 {
+				enc = wrapWire(enc, r.Intn(3))
+				labels = append(labels, "wire-base64-line-wrapped")
+			}
+		}
 		replay := map[string]interface{}{"op": "pre-decode vs validation", "labels": labels, "encoded": enc, "xml": string(raw), "clock": g.now.Format(time.RFC3339Nano)}
 		if shape == 13 {
 			replay["xml"] = strings.TrimRight(string(raw), "\n") + fmt.Sprintf("  [followed by %d line feeds]", len(raw)-len(strings.TrimRight(string(raw), "\n")))
@@ -618,6 +655,19 @@ func runPredecodeStream(c *Ctx, n int) {
 				c.Violate("spec", key, fmt.Sprintf("pre-decode (ID=%q InResponseTo=%q Destination=%q Version=%q Issuer=%q) vs validated (ID=%q InResponseTo=%q Destination=%q Version=%q Issuer=%q)",
 					preID, preIRT, preDest, preVer, preIss, vID, vIRT, vDest, vVer, vIss), replay)
 			}
+		}
+		if _, derr := base64.StdEncoding.DecodeString(enc); derr != nil {
+			// a spelling Go's strict base64 refuses: the message never reaches the XML layer the model starts at
+			c.Count("pre:wire-not-strict-base64")
+			continue
+		}
+		if shape != 13 && k%6 == 0 && len(raw) < 24<<10 {
+			if isLogout {
+				csBL.Add(S(string(raw)), obs, "from bytes: "+strings.Join(labels, ","))
+			} else {
+				csB.Add(S(string(raw)), obs, "from bytes: "+strings.Join(labels, ","))
+			}
+			c.Count("pre:model-from-bytes")
 		}
 		// model: the pre-decoder is xml.Unmarshal on the raw bytes = the schema interpreter on the RAW token view
 		// (duplicate attributes preserved)
